@@ -10,6 +10,7 @@
 -/
 import FalconProofs.C06.AsmEntry
 import FalconProofs.C06.AsmNoPanic
+import FalconProofs.C06.Refines
 
 namespace Falcon.C06Asm
 open Falcon Falcon.CfgEdit Falcon.Assemble Falcon.C15
@@ -129,6 +130,69 @@ theorem translate_function_wf {oracle : Nat → Option (Res BTR)} {manual : List
   · cases h
   · cases h
 
+/-- **asm_refines** — the semantic clause of C06 for the assembly model, for ALL tables of translation results,
+    manual edges, function addresses, states and run lengths.
+
+    Reference ("the machine code one lifted instruction at a time", `Assemble.RStep`): a configuration is
+    (address `a`, block, position, state) inside THE instruction graph at `a` (`graphAt`); it steps by the IL
+    operational semantics inside that graph and, at the end of its exit block, moves to the entry of the graph at an
+    address `b` for which a transfer (a, b, guard) is requested by the translation results or a manual edge
+    (`reqList`: next instruction of a result, successors of its last instruction, manual edges) and `guard` holds.
+    Recovered function: `FStep f` / `FRun f`, the IL operational semantics of Exec.lean (the one property C07 proves
+    falcon's executor to implement).
+
+    Under `Coherent tb manual` (decidable; evaluated by the driver on every generated case) there is a location
+    map Ψ, preserving states and sending the start of the function address to the entry of `f`, such that every
+    finite reference run is a run of `f` and every finite run of `f` is the image of a reference run — whatever
+    the windows were (an address lifted in several results is inserted once and shared), wherever a branch
+    lands (the target's graph is the same copy), whichever manual edges were requested, and through the final
+    `merge`.  The native addresses visited are the `addr` components along the reference run; the states are equal
+    at every point; a run that cannot continue (error in an operation, `Operation::Branch`, no enabled edge, address
+    without translation result) cannot continue on the other side either, since both directions are step-exact.
+
+    The harness-level statement
+      `∀ σ n, (runFn f mips n fuel ⟨entry, 0, σ⟩ []).{trace, state} = (runRef oracle mips n fuel' fnAddr σ []).{trace, state}`
+    (FnRec.lean) is NOT provable as it stands and is false in corners that the per-case check never meets: `runRef`
+    runs each instruction graph with an inner fuel of 4096 (a `rep`-style graph looping longer stops the reference
+    only), `runFn` rolls the state back when the edge after a block's last instruction cannot be chosen while
+    `runGraph` does not, a lone out-edge is taken without evaluating its guard, several enabled edges are tried in
+    index order, and the address trace is recorded per executed IL instruction on one side and per instruction unit
+    on the other.  Those are facts about falcon's executor (C07's premise `GuardsOK`) and about the bookkeeping of
+    the comparison, not about function recovery; `asm_refines` is therefore stated over the IL operational
+    semantics, and the per-case check keeps comparing `runFn`/`runRef` with falcon's executor. -/
+theorem asm_refines {tb : List (Nat × BTR)} {manual : List ManualEdge} {fnAddr : Nat} {f : Function}
+    (hc : Coherent tb manual) (hg : GraphsWF tb) (h : assemble tb manual fnAddr = .ok f) :
+    ∃ Ψ : RConfig → Config,
+      (∀ x, (Ψ x).state = x.state) ∧
+      (∀ g en σ, graphAt tb fnAddr = some g → g.entry = some en →
+        ∃ fe, f.cfg.entry = some fe ∧ Ψ ⟨fnAddr, en, 0, σ⟩ = ⟨fe, 0, σ⟩) ∧
+      (∀ x y, RValid tb x → RRun tb manual x y → FRun f (Ψ x) (Ψ y)) ∧
+      (∀ x z, RValid tb x → FRun f (Ψ x) z → ∃ y, RRun tb manual x y ∧ Ψ y = z) :=
+  assemble_refines hc hg h
+
+/-- **translate_function_refines** — the same for the whole of `translate_function_extended` (work list +
+    assembly): the table is the one the work list built; `Coherent.keys` comes for free. -/
+theorem translate_function_refines {oracle : Nat → Option (Res BTR)} {manual : List ManualEdge} {fnAddr fuel : Nat}
+    {f : Function} (ho : OracleWF oracle) (h : translateFunction oracle manual fnAddr fuel = .ok f) :
+    ∃ tb, discover oracle manual fnAddr fuel = .ok tb ∧ (tb.map (·.1)).Nodup ∧
+      (Coherent tb manual →
+        ∃ Ψ : RConfig → Config,
+          (∀ x, (Ψ x).state = x.state) ∧
+          (∀ g en σ, graphAt tb fnAddr = some g → g.entry = some en →
+            ∃ fe, f.cfg.entry = some fe ∧ Ψ ⟨fnAddr, en, 0, σ⟩ = ⟨fe, 0, σ⟩) ∧
+          (∀ x y, RValid tb x → RRun tb manual x y → FRun f (Ψ x) (Ψ y)) ∧
+          (∀ x z, RValid tb x → FRun f (Ψ x) z → ∃ y, RRun tb manual x y ∧ Ψ y = z)) := by
+  unfold translateFunction at h
+  split at h
+  · rename_i tb hd
+    exact ⟨tb, hd, (discover_spec hd).1, fun hc => assemble_refines hc (discover_graphsWF ho hd) h⟩
+  · cases h
+  · cases h
+
+/-- `merge` alone preserves executions (not only the language of `asm_lang`): for every well-formed graph there is
+    a configuration map under which the runs before and after `merge` are the same -/
+theorem merge_preserves_executions {c : Cfg} (hw : WF c) : ∃ μ, ExecEquiv c (merge c).cfg μ := merge_equiv hw
+
 /-- non-vacuity: two results, the second shares the instruction at 0x1004 with the first (a branch into the middle
     of a lifted block); the function assembles, 0x1004 is inserted once, the entry is block 0 -/
 def exNop (a : Nat) : Function :=
@@ -143,6 +207,12 @@ example : (assemble exTb [] 0x1000).map (fun f => (f.cfg.entry, f.cfg.blocks.len
     = .ok (some 0, 1, [(0, 0)]) := by decide
 example : (assembleCore exTb []).map (fun st => (st.instrIdx.map (·.1), st.cfg.blocks.length, st.blockIdx))
     = .ok ([0x1004, 0x1000], 2, [(0x1004, (1, 1)), (0x1000, (0, 1))]) := by decide
+/-- the coherence hypothesis holds for it (0x1004 occurs in both results with the same graph; the two requests
+    0x1004 → 0x1000 carry the same guard), so `asm_refines` applies: the runs of the assembled one-block loop are
+    exactly the runs 0x1000, 0x1004, 0x1000, … of the reference -/
+example : Coherent exTb [] := by decide
+example : reqList exTb [] = [(0x1000, 0x1004, none), (0x1004, 0x1000, none), (0x1004, 0x1000, none)] := by decide
+
 example : GraphsWF exTb := by
   intro p hp g hg
   simp only [exTb, List.mem_cons, List.mem_nil_iff, or_false] at hp
